@@ -214,6 +214,21 @@ def d_list(elem, lo=0, hi=None):
     invalid.append(('too-short', '[' + ', '.join((ev * 4)[:lo - 1]) + ']'))
   if hi is not None:
     invalid.append(('too-long', '[' + ', '.join((ev * 8)[:hi + 1]) + ']'))
+  # symbolic inputs: untyped, typed with the same spec, typed with another spec
+  good = '[' + ', '.join((ev * 4)[:base_n]) + ']'
+  valid.append(('symbolic-untyped', f'pg.List({good})'))
+  valid.append(('symbolic-same-spec', f'pg.List({good},value_spec=T.List({args}))'))
+  if elem.invalid:
+    bad = '[' + ', '.join([ev[0]] * (base_n - 1) + [elem.invalid[0][1]]) + ']'
+    invalid.append(('symbolic-untyped-bad-element', f'pg.List({bad})'))
+    invalid.append(('symbolic-other-spec-bad-element', f'pg.List({bad},value_spec=T.List(T.Any()))'))
+  if hi is not None:
+    too_long = '[' + ', '.join((ev * 8)[:hi + 1]) + ']'
+    invalid.append(('symbolic-other-spec-too-long', f'pg.List({too_long},value_spec=T.List({elem.src}))'))
+  if getattr(elem, 'fields', None) and not hasattr(elem, 'cls_name') and any(
+      not dd.has_default for k, dd in elem.fields if not isinstance(k, tuple)):
+    invalid.append(('missing-required:symbolic-partial-same-spec',
+                    f'pg.List([{{}}],value_spec=T.List({args}),allow_partial=True)'))
   d = Desc(f'List({elem.name},{lo},{hi})', f'T.List({args})', ok, valid, invalid, pre=elem.pre)
   d.elem, d.lo, d.hi = elem, lo, hi
   return d
@@ -289,6 +304,21 @@ def d_dict(fields, name=None):
     valid.append(('dict-dyn', lit([(k, d.valid[0][1]) for k, d in req] + [('x1', dyns[0][1].valid[0][1])])))
     if dyns[0][1].invalid:
       invalid.append(('bad-dynamic-member', lit([(k, d.valid[0][1]) for k, d in req] + [('x1', dyns[0][1].invalid[0][1])])))
+  own = 'T.Dict([' + ', '.join(_field_src(k, dd) for k, dd in fields) + '])'
+  good = lit([(k, d.valid[0][1]) for k, d in req])
+  valid.append(('symbolic-untyped', f'pg.Dict({good})'))
+  valid.append(('symbolic-same-spec', f'pg.Dict({good},value_spec={own})'))
+  invalid.append(('symbolic-untyped-undeclared-key', 'pg.Dict(' + lit([(k, d.valid[0][1]) for k, d in req] + [('zz', '1')]) + ')'))
+  invalid.append(('symbolic-other-spec-undeclared-key',
+                  'pg.Dict(' + lit([(k, d.valid[0][1]) for k, d in req] + [('zz', '1')]) + ',value_spec=T.Dict([(T.StrKey(),T.Any())]))'))
+  if req:
+    invalid.append(('missing-required:symbolic-partial-same-spec', f'pg.Dict.partial({{}},value_spec={own})'))
+    first_bad = [(k, d) for k, d in req if d.invalid]
+    if first_bad:
+      k0, d0 = first_bad[0]
+      invalid.append(('symbolic-other-spec-bad-member',
+                      'pg.Dict(' + lit([(k, d0.invalid[0][1] if k == k0 else d.valid[0][1]) for k, d in req])
+                      + ',value_spec=T.Dict([(T.StrKey(),T.Any())]))'))
   d = Desc(name or ('Dict(' + ','.join(str(k) for k, _ in fields) + ')'),
            'T.Dict([' + ', '.join(_field_src(k, dd) for k, dd in fields) + '])', ok, valid, invalid,
            pre=''.join(dd.pre for _, dd in fields))
